@@ -7,6 +7,8 @@ CONSTANTS
   MaxMsg = 0
   AllowHold = FALSE
   AllowBreak = FALSE
+  AllowStall = FALSE
+  Cap = 1
   AllowRemove = TRUE
   FixSenderPrune = TRUE
   FixGuardedDelete = TRUE
